@@ -121,6 +121,30 @@ Definition get_sent_request (e : ep) (tok : Z) : option msg :=
    later shows on the wire is called 1000+k, the others get negative names *)
 Definition FRESH := 1000.
 
+(* getPayloadFromCachedReceivedMessage (an ETag change restarts the reassembly) followed by
+   copyToPayloadFromOffset guarded by [off == payloadSize]: the cached message after block r
+   (payload offset off) and whether the block was appended *)
+Definition reasm (cm r : msg) (off : Z) : msg * bool :=
+  let cm := match metag r, metag cm with
+            | Some a, Some c => if a =? c then cm else set_body (set_etag cm (Some a)) []
+            | _, _ => cm
+            end in
+  let appended := off =? blen (mbody cm) in
+  (if appended then set_body cm (mbody cm ++ mbody r) else cm, appended).
+
+(* handleObserveResponse: a block-wise notification is fetched under a new token, for which a
+   copy of the original request is registered; result: endpoint, cache key, success *)
+Definition observe_key (e : ep) (r : msg) (b : blk) (sent : option msg) : ep * Z * bool :=
+  if is_observe_response r then
+    match sent with
+    | None => (e, mtok r, false)
+    | Some sr =>
+      let key := if bmore b then FRESH + efresh e else - (1 + ehid e) in
+      let e' := if bmore b then with_counters e (efresh e + 1) (ehid e) else with_counters e (efresh e) (ehid e + 1) in
+      (with_sending e' (tput (sending e') key (set_tok sr key)), key, true)
+    end
+  else (e, mtok r, true).
+
 Section Handle.
   (* the application behind [next]: token of the wire message, delivered message -> response set on w *)
   Variable app : Z -> msg -> option msg.
@@ -140,17 +164,7 @@ Section Handle.
       match (if isb1 then false else match sent with None => true | Some _ => false end) with
       | true => (e, Fail, [])   (* cannot request body without paired request *)
       | false =>
-        (* handleObserveResponse *)
-        let '(e0, key, obs_ok) :=
-          if is_observe_response r then
-            match sent with
-            | None => (e, mtok r, false)
-            | Some sr =>
-              let key := if bmore b then FRESH + efresh e else - (1 + ehid e) in
-              let e' := if bmore b then with_counters e (efresh e + 1) (ehid e) else with_counters e (efresh e) (ehid e + 1) in
-              (with_sending e' (tput (sending e') key (set_tok sr key)), key, true)
-            end
-          else (e, mtok r, true) in
+        let '(e0, key, obs_ok) := observe_key e r b sent in
         if negb obs_ok then (e0, Fail, [])
         else
         let cached := tget (receiving e0) key in
@@ -161,14 +175,8 @@ Section Handle.
             if negb (bnum b =? 0) then (e0, Fail, []) else (e0, Out (app (mtok r) r), [r])
         | _, _ =>
           let cm := match cached with Some c => c | None => set_body r [] end in
-          (* getPayloadFromCachedReceivedMessage: ETag change restarts the reassembly *)
-          let cm := match metag r, metag cm with
-                    | Some a, Some c => if a =? c then cm else set_body (set_etag cm (Some a)) []
-                    | _, _ => cm
-                    end in
           let off := bnum b * size szx0 in
-          let appended := off =? blen (mbody cm) in
-          let cm' := if appended then set_body cm (mbody cm ++ mbody r) else cm in
+          let '(cm', appended) := reasm cm r off in
           let e2 := with_receiving e0 (tput (receiving e0) key cm') in
           if appended && negb (bmore b) then
             let full := set_block isb1 cm' None None in
